@@ -15,6 +15,10 @@ GenA == << << <<1, 2>>, <<2, 0>>, <<0>> >>, << <<1, 1>>, <<2>> >> >>
 GenB == << << <<1>>, <<2>>, <<0>> >>, << <<1>> >>, << <<2>>, <<1>> >> >>
 GenC == << << <<1, 1>>, <<0, 2>>, <<1, 0>>, <<0, 0>> >> >>
 GenD == << << <<1>>, <<0>> >>, << <<2>>, <<2>>, <<0>> >> >>
+\* names that cannot be opened (<<>>), at least as many as reader slots, before / between / after readable files
+GenM == << <<>>, <<>>, << <<1>>, <<2>> >> >>
+GenN == << <<>>, << <<1, 2>>, <<2, 0>> >>, <<>>, <<>>, << <<2, 1>> >> >>
+GenO == << << <<1>> >>, <<>>, <<>>, <<>> >>
 
 VARIABLES hist, wb, rq
 gvars == <<vars, hist, wb, rq>>
